@@ -307,7 +307,9 @@ func (r *ApplyStageRunner) run(ctx context.Context) {
 		r.mu.Unlock()
 	}()
 
+	defer verifPoint("a.exit", "apply", 0, nil, 0)
 	for {
+		verifPoint("a.idle", "apply", 0, nil, 0)
 		select {
 		case <-ctx.Done():
 			return
@@ -315,6 +317,7 @@ func (r *ApplyStageRunner) run(ctx context.Context) {
 			if !ok {
 				return
 			}
+			verifPoint("a.took", "apply", item.SequenceNumber(), item.RawCbor(), 0)
 
 			processed, err := r.stage.ProcessWithStatus(ctx, item)
 			if err != nil {
@@ -330,6 +333,7 @@ func (r *ApplyStageRunner) run(ctx context.Context) {
 			// that became ready). This eliminates the data loss vulnerability from
 			// the previous callback-based approach where items could be dropped if
 			// the pending queue overflowed.
+			verifPoint("a.done", "apply", 0, nil, int64(len(processed)))
 			for _, p := range processed {
 				r.forwardItem(ctx, p)
 			}
